@@ -39,6 +39,7 @@ def kInt32 : Bytes := [0x69, 0x6E, 0x74, 0x33, 0x32]
 def kInt64 : Bytes := [0x69, 0x6E, 0x74, 0x36, 0x34]
 def kBool : Bytes := [0x62, 0x6F, 0x6F, 0x6C]
 def kMessage : Bytes := [0x6D, 0x65, 0x73, 0x73, 0x61, 0x67, 0x65]
+def kBytes : Bytes := [0x62, 0x79, 0x74, 0x65, 0x73]
 
 def tTrue : Bytes := [0x74, 0x72, 0x75, 0x65]
 def tFalse : Bytes := [0x66, 0x61, 0x6C, 0x73, 0x65]
@@ -70,6 +71,36 @@ def jsonInt (lo hi : Int) (text : Bytes) : Option Int :=
 
 def intText (v : Int) : Bytes := (toString v).toUTF8.toList
 
+/-! base64 for `bytes` parameters (`params.go`): written with `base64.URLEncoding` (padded); read with
+    the URL alphabet when the text contains `-` or `_`, else the standard alphabet, and without padding
+    when the length of the text is not a multiple of four. -/
+
+def b64StdVal (c : UInt8) : Option Nat :=
+  if c == 0x2B then some 62 else if c == 0x2F then some 63
+  else if c == 0x2D || c == 0x5F then none else b64Val c
+
+/-- `base64.URLEncoding.EncodeToString`. -/
+def b64UrlPadEncode (v : Bytes) : Bytes :=
+  let raw := b64RawUrlEncode v
+  raw ++ List.replicate ((4 - raw.length % 4) % 4) 0x3D
+
+/-- `unmarshalFieldValue` for `bytes` (Go's decoder skips CR and LF; trailing bits are not checked). -/
+def bytesParamDecode (text : Bytes) : Option Bytes :=
+  let val := if text.any (fun c => c == 0x2D || c == 0x5F) then b64Val else b64StdVal
+  let t := text.filter (fun c => c != 0x0D && c != 0x0A)
+  if text.length % 4 != 0 then
+    -- no padding expected: `=` is not in the alphabet
+    (t.mapM val).bind b64RawUrlDecodeVals
+  else
+    if t.length % 4 != 0 then none else
+    let body := (t.reverse.dropWhile (· == 0x3D)).reverse
+    let pad := t.length - body.length
+    if pad > 2 then none else
+    (body.mapM val).bind b64RawUrlDecodeVals
+
+/-- The text of a populated scalar as it is written into a path or query parameter. -/
+def paramText (f : FieldD) (canon : Bytes) : Bytes := if f.kind == kBytes then b64UrlPadEncode canon else canon
+
 /-- `unmarshalFieldValue` for the kinds modelled: `some canonical` = accepted with that value. -/
 def validText (f : FieldD) (text : Bytes) : Option Bytes :=
   if f.kind == kString then some text
@@ -78,6 +109,7 @@ def validText (f : FieldD) (text : Bytes) : Option Bytes :=
   else if f.kind == kBool then
     let t := trimJson text
     if t == tTrue then some tTrue else if t == tFalse then some tFalse else none
+  else if f.kind == kBytes then bytesParamDecode text
   else none
 
 /-- Proto3 scalars without presence: a default value is not a populated leaf. -/
@@ -144,7 +176,7 @@ def restEncode (sch : Schema) (msg : Bytes) (r : Rule) (m : Leaves) : Except REr
           | none => .error .other
           | some f =>
             if f.kind == kMessage || f.message.isSome then .error .other else      -- marshalFieldWKT: unsupported message type
-            let value := (valuesOf m v.fieldPath).head?.getD (defaultText f)
+            let value := paramText f ((valuesOf m v.fieldPath).head?.getD (defaultText f))
             let size := varSize v
             let parts := splitVar value (size != some 1)
             let sizeBad := match size with
@@ -181,7 +213,11 @@ def restEncode (sch : Schema) (msg : Bytes) (r : Rule) (m : Leaves) : Except REr
             | none => false
           | none => false
         let body : Option Leaves := if r.body.isEmpty then none else some (under m r.body)
-        .ok { path := path, query := sortQuery (q.map fun l => (jsonPath sch msg l.1, l.2)), body := body }
+        let textOf (l : Bytes × Bytes) : Bytes :=
+          match (fieldPathOk sch msg l.1).bind (·.getLast?) with
+          | some f => paramText f l.2
+          | none => l.2
+        .ok { path := path, query := sortQuery (q.map fun l => (jsonPath sch msg l.1, textOf l)), body := body }
 
 /-! ### REST request → message (`prepareUnmarshalledRequest`) -/
 
